@@ -887,6 +887,8 @@ func init() {
 				Reflector(c, "#4 of rotated ForSpectrum9", h, sh, vh, fillM9)
 				Reflector(c, "#5 of rotated ForSpectrum9", i, si, vi, fillM9)
 			})
+			// every arity 2..9 of both families, by type and by name (generated: m9_gen.go)
+			m9AllArities(c)
 			// the arities in between, by type, on interleaved selections
 			Derive(c, "ForProduct4..8 on M9", func() {
 				a4, c4, e4, g4 := optics.ForProduct4[M9, M9a, M9c, M9e, M9g]()
